@@ -325,6 +325,17 @@ func (P *Program) ParseContracts(mirrorDir, specDir string) error {
 						last = &tgt.AtClosure[len(tgt.AtClosure)-1].Clause
 						continue
 					}
+					if strings.HasPrefix(r, "mapupdate ") {
+						// at mapupdate M: assert #label EXPR   (key, value = the entry written)
+						r = strings.TrimSpace(strings.TrimPrefix(r, "mapupdate "))
+						c, k := strings.IndexByte(r, ':'), strings.Index(r, "assert")
+						if c < 0 || k < c {
+							return fmt.Errorf("%s: at mapupdate NAME: assert EXPR", where)
+						}
+						tgt.AtClosure = append(tgt.AtClosure, AtClause{Callee: "mapupdate:" + strings.TrimSpace(r[:c]), Clause: mk(strings.TrimSpace(r[k+len("assert"):]))})
+						last = &tgt.AtClosure[len(tgt.AtClosure)-1].Clause
+						continue
+					}
 					if !strings.HasPrefix(r, "closure") {
 						return fmt.Errorf("%s: at closure [vars]: assert EXPR", where)
 					}
